@@ -30,7 +30,8 @@ from classy_blocks.construct.shape import Shape  # noqa: E402
 
 RULE = (
     "A history = pool of <= 4 operations (Lofts cut from a jittered node lattice, random corner numbering, patches, "
-    "cell zone, optional arc edge / projected side / projected corner, count chops consistent per edge family; one "
+    "cell zone, optional curved edge (arc / spline / polyLine / angle-and-axis on a bottom, top or side edge) / projected "
+    "side / projected corner, count chops consistent per edge family; one "
     "mesh.add() may bring two of them wrapped in a user-defined Shape) and a "
     "program of <= 12 steps over {add, delete, assemble, move, backport, clear, modify_patch, set_default_patch, "
     "merge_patches, write} followed by a final write; steps are drawn by simulating the life cycle so most are "
@@ -71,6 +72,7 @@ MOVE_MIN = 1e-5  # a non-zero displacement component is at least 100 x TOL: dist
 AXIS_MASKS = [[1, 1, 1], [1, 0, 0], [0, 1, 0], [0, 0, 1]]  # which coordinates a move changes
 EPS = 2.3e-16
 ARC_FRACTION = 0.5  # arc control point offset: larger than jitter + move so the three points never line up
+EDGE_KINDS = ["arc", "spline", "polyLine", "angle"]  # all but 'arc' depend on the direction the edge is defined in
 SECTION_NAMES = ("geometry", "vertices", "blocks", "edges", "faces", "boundary", "defaultPatch", "mergePatchPairs")
 
 # --------------------------------------------------------------------------------------------------
@@ -142,6 +144,7 @@ def history(draw, chops: str = "all", modify: bool = False, max_steps: int = 12)
             "patches": patches,
             "zone": "z1" if draw(st.integers(0, 3)) == 0 else "",
             "arc": [draw(st.sampled_from(["bottom", "top", "side"])), draw(st.integers(0, 3))] if extras & 1 else None,
+            "edge": draw(st.sampled_from(EDGE_KINDS)),  # kind of the curved edge placed at "arc" (if any)
             "proj_side": draw(st.sampled_from(ORIENTS)) if extras & 2 and draw(st.booleans()) else None,
             "proj_points": bool(extras & 2 and draw(st.booleans())),  # project_side(..., points=True)
             "proj_corner": draw(st.integers(0, 7)) if extras & 4 else None,
@@ -220,6 +223,50 @@ def history(draw, chops: str = "all", modify: bool = False, max_steps: int = 12)
     return case
 
 
+@st.composite
+def sized_history(draw):
+    """A row of 2-3 operations; one edge family gets its only chop as a cell size on one operation (the others take
+    the count from it) and that count is within a few percent of a rounding step, so moving a vertex by the usual
+    amount often changes it.  Program: add all, write, move, write (no backport in between), then a few free steps."""
+    n_ops = draw(st.integers(2, 3))
+    dims = [n_ops, 1, 1]
+    widths = [[10.0 ** draw(st.floats(-0.3, 0.3)) for _ in range(n_ops)],
+              [10.0 ** draw(st.floats(-0.3, 0.3))], [10.0 ** draw(st.floats(-0.3, 0.3))]]
+    t = draw(st.sampled_from([1, 2]))  # the direction across the row whose count is given by a size
+    holder = draw(st.integers(0, n_ops - 1))
+    cells_needed = draw(st.integers(3, 9))
+    size = widths[t][0] / (cells_needed + draw(st.sampled_from([-1, 1])) * draw(st.floats(0.005, 0.05)))
+    other = draw(st.integers(1, 6))
+    order = list(draw(st.permutations(list(range(n_ops)))))
+    pool = []
+    for c in order:
+        rot = draw(st.integers(0, 23))
+        axes = lt.local_axes(rot)
+        chop: List[Any] = []
+        for a in range(3):
+            g = axes[a][0]
+            if g == 0:
+                chop.append(draw(st.integers(1, 6)))  # along the row every operation has its own family
+            elif g == t:
+                chop.append({"start_size": size} if c == holder else None)
+            else:
+                chop.append(other)
+        pool.append({"cell": c, "rot": rot, "chops": chop, "patches": {}, "zone": "", "arc": None, "edge": "arc",
+                     "proj_side": None, "proj_points": False, "proj_corner": None})
+    move = st.lists(
+        st.tuples(st.integers(0, 5), st.integers(0, 7), st.lists(st.floats(-1.0, 1.0), min_size=3, max_size=3),
+                  st.just(0), st.integers(0, len(AXIS_MASKS) - 1)).map(list),
+        min_size=1, max_size=3)
+    program: List[list] = [["add", 0, 1] for _ in range(n_ops)]
+    program += [["write", draw(st.booleans())], ["move", draw(move)], ["write", draw(st.booleans())]]
+    for _ in range(draw(st.integers(0, 3))):
+        kind = draw(st.sampled_from(["move", "write", "backport", "clear"]))
+        program.append({"move": ["move", draw(move)], "write": ["write", draw(st.booleans())],
+                        "backport": ["backport"], "clear": ["clear"]}[kind])
+    program.append(["write", draw(st.booleans())])
+    return {"dims": dims, "widths": widths, "jitter": [], "pool": pool, "program": program}
+
+
 # --------------------------------------------------------------------------------------------------
 # script-level model
 
@@ -253,7 +300,7 @@ class Model:
             perm = lt.ROT[spec["rot"]]
             self.orig.append(np.array([nodes[ids[perm[i]]] for i in range(8)]))
         self.pos = [p.copy() for p in self.orig]  # committed corner positions (what the operations hold)
-        self.arc_points = [self._arc_point(i) for i in range(len(self.pool))]
+        self.edge_payloads = [self._edge_payload(i) for i in range(len(self.pool))]
         self.added: List[int] = []  # pool indices in the order they were added
         self.bundles: List[List[int]] = []  # the same, grouped by mesh.add() call (>= 2: one Shape holding them)
         self.deleted: set = set()
@@ -264,7 +311,9 @@ class Model:
         self.merged: List[List[str]] = []
         self.uses_geometry = any(s["proj_side"] or s["proj_corner"] is not None for s in self.pool)
 
-    def _arc_point(self, i: int):
+    def _edge_payload(self, i: int):
+        """control data of the operation's curved edge, fixed at the ORIGINAL corner positions, in the sense the
+        edge is defined in (face edge k: point k -> k+1, closing edge 3 -> 0; side edge k: k -> k+4)"""
         arc = self.pool[i]["arc"]
         if arc is None:
             return None
@@ -274,7 +323,27 @@ class Model:
         g = int(np.argmax(np.abs(pb - pa)))
         off = np.zeros(3)
         off[(g + 1) % 3] = ARC_FRACTION * self.minw
-        return 0.5 * (pa + pb) + off
+        kind = self.pool[i].get("edge", "arc")
+        if kind == "arc":
+            return 0.5 * (pa + pb) + off
+        if kind in ("spline", "polyLine"):
+            # two interior points, not symmetric about the middle
+            return [pa + 0.25 * (pb - pa) + off, pa + 0.6 * (pb - pa) + 0.4 * off]
+        axis = np.zeros(3)
+        axis[(g + 2) % 3] = 1.0
+        return [0.7, axis]  # sector angle and axis
+
+    def edge_data(self, i: int):
+        """a new EdgeData object (user data) for the operation's curved edge"""
+        kind = self.pool[i].get("edge", "arc")
+        payload = self.edge_payloads[i]
+        if kind == "arc":
+            return cb.Arc(payload)
+        if kind == "spline":
+            return cb.Spline([p.copy() for p in payload])
+        if kind == "polyLine":
+            return cb.PolyLine([p.copy() for p in payload])
+        return cb.Angle(payload[0], payload[1].copy())
 
     @property
     def alive(self) -> List[int]:
@@ -293,13 +362,15 @@ class Model:
         edges: Dict[str, Any] = {"bottom": None, "top": None}
         if arc is not None and arc[0] in edges:
             lst: List[Any] = [None, None, None, None]
-            lst[arc[1]] = cb.Arc(self.arc_points[i])
+            lst[arc[1]] = self.edge_data(i)
             edges[arc[0]] = lst
         op = cb.Loft(cb.Face(pts[:4], edges["bottom"]), cb.Face(pts[4:], edges["top"]))
         if arc is not None and arc[0] == "side":
-            op.add_side_edge(arc[1], cb.Arc(self.arc_points[i]))
+            op.add_side_edge(arc[1], self.edge_data(i))
         for axis, n in enumerate(spec["chops"]):
-            if n is not None:
+            if isinstance(n, dict):
+                op.chop(axis, start_size=n["start_size"])  # the count follows the current edge lengths
+            elif n is not None:
                 op.chop(axis, count=n)
         for orient in ORIENTS:  # fixed order: the JSON case may arrive with sorted keys
             if orient in spec["patches"]:
@@ -414,6 +485,7 @@ class Run:
         self.judged = 0
         self.nontrivial = False
         self.small_move_pending = False
+        self.last_counts: Optional[list] = None  # cell counts of the hex entries at the previous judged write
 
     # ---- facts attached to every violation
     def facts(self, **extra) -> dict:
@@ -686,6 +758,10 @@ class Run:
         self.check_against_model(got)
         if m.pending:
             self.ctx.label("write-with-pending-moves")
+        counts = [tuple(b.counts) for b in lt.parse(got).blocks]
+        if self.last_counts is not None and len(counts) == len(self.last_counts) and counts != self.last_counts:
+            self.ctx.label("cell-counts-changed-since-last-write")
+        self.last_counts = counts
         if self.features & {"reassembled", "deleted", "written"}:
             self.nontrivial = True
         self.judged += 1
@@ -806,8 +882,12 @@ def check_history(case, ctx: Ctx) -> None:
     ctx.label(*("did:" + f for f in sorted(run.features)))
     ctx.label(f"judged={min(run.judged, 4)}")
     ctx.label(f"alive={len(run.m.alive)}")
-    if any(s["arc"] for i, s in enumerate(run.m.pool) if i in run.m.added):
-        ctx.label("has-arc")
+    curved = [s for i, s in enumerate(run.m.pool) if i in run.m.added and s["arc"]]
+    if curved:
+        ctx.label("has-curved-edge")
+        ctx.label(*sorted({"edge:" + s.get("edge", "arc") for s in curved}))
+        if any(s.get("edge", "arc") != "arc" and s["arc"][0] != "side" and s["arc"][1] == 3 for s in curved):
+            ctx.label("directional-closing-edge" + ("+reassembled" if "reassembled" in run.features else ""))
     if run.m.uses_geometry:
         ctx.label("has-projection")
 
@@ -823,4 +903,8 @@ CELLS = [
          "neighbours; writes that a fresh build cannot do either (family left without a chop after a delete) are counted"),
     Cell("C12/history/patches", history("all", modify=True), check_history, 600, 18000,
          "as chopped, plus modify_patch steps (types and settings changed through the mesh must survive clear/backport)"),
+    Cell("C12/history/rewritten-after-move", sized_history(), check_history, 400, 12000,
+         "row of 2-3 operations, one family chopped by a cell size close to a rounding step on one operation and "
+         "propagated to the others; write, move, write without backport, then free steps: counts must follow the moved "
+         "lengths exactly as in a fresh build that receives the same moves"),
 ]
